@@ -475,8 +475,12 @@ class GenA:
         rng = self.rng
         fault = rng.choice(["none", "none", "none", "dup_name", "dup_symbol", "dup_both"])
         base = rng.choice([10, 10, 2, 3, 7])
-        exp = rng.choice([31, 33, 35, 37, -31, -33, 41, 43, -41, 45, 47, -47, 51, 53])
+        exp = rng.choice([31, 33, 35, 37, -31, -33, 41, 43, -41, 45, 47, -47, 51, 53, 0])
         mp = M.p_norm([(base, exp)])
+        if exp == 0:
+            # the identity prefix under another spelling: a taken name must still be refused,
+            # and nothing may be re-bound
+            fault = rng.choice(["dup_name", "dup_symbol", "dup_both"])
         if mp in self.model.prefix_names.values():
             return
         if rng.random() < 0.5:
